@@ -387,3 +387,96 @@ func TestC15Sched(t *testing.T) {
 		return vs
 	})
 }
+
+// ---- the scheduler in the service of C01 and C07 ----
+
+// genSchedFocused draws a scheduled case whose sessions only use the given operations.
+func genSchedFocused(t *rapid.T, ops []string, sharedIDs, sameSP bool) C15SchedCase {
+	c := C15SchedCase{N: rapid.SampledFrom([]int{2, 2, 3, 4}).Draw(t, "clients"), SharedIDs: sharedIDs, SameHost: rapid.Bool().Draw(t, "samehost"), SameSP: sameSP, Stalled: -1, Slow: -1}
+	for i := 0; i < c.N; i++ {
+		var o []string
+		for k := 0; k < rapid.IntRange(1, 2).Draw(t, "nops"); k++ {
+			o = append(o, rapid.SampledFrom(ops).Draw(t, "op"))
+		}
+		c.Ops = append(c.Ops, o)
+		c.Faults = append(c.Faults, map[string]string{})
+		c.CancelOn = append(c.CancelOn, "")
+	}
+	if rapid.IntRange(0, 3).Draw(t, "slowstorage") != 0 {
+		c.Slow = rapid.IntRange(0, c.N-1).Draw(t, "slow")
+		c.SlowAt = "storage:" + rapid.SampledFrom([]string{"GetEntityByID", "GetResponseSigningKey", "SetUserinfoWithUserID", "AuthRequestByID", "CreateAuthRequest", "GetEntityIDByAppID", "SetUserinfoWithLoginName"}).Draw(t, "slowat")
+		switch rapid.IntRange(0, 2).Draw(t, "slowfate") {
+		case 1:
+			c.CancelOn[c.Slow] = c.SlowAt
+		case 2:
+			c.Faults[c.Slow] = map[string]string{strings.TrimPrefix(c.SlowAt, "storage:"): rapid.SampledFrom([]string{"error", "timeout"}).Draw(t, "slowfault")}
+		}
+	}
+	c.Schedule = rapid.SliceOfN(rapid.IntRange(0, 7), 0, 40).Draw(t, "schedule")
+	return c
+}
+
+// TestC01Sched: callbacks of several sessions overlap in generated ways; service providers happened to choose the same
+// AuthnRequest ID. A callback on a request whose login is not completed never yields Success or user data, whoever else is
+// being served.
+func TestC01Sched(t *testing.T) {
+	col := ev.For("C01", "exploration", c01Rule)
+	old := runtime.GOMAXPROCS(4)
+	defer runtime.GOMAXPROCS(old)
+	searchRapid(t, col, func(t *rapid.T) C15SchedCase {
+		return genSchedFocused(t, []string{"cb-done-post", "cb-done-redirect", "cb-pending", "cb-pending"}, rapid.IntRange(0, 3).Draw(t, "sharedids") != 0, rapid.Bool().Draw(t, "samesp"))
+	}, func(c C15SchedCase) []*ev.Violation {
+		vs, _, trace := c15SchedRun(c)
+		var out []*ev.Violation
+		pending := false
+		for _, ops := range c.Ops {
+			for _, o := range ops {
+				pending = pending || o == "cb-pending"
+			}
+		}
+		for _, v := range vs {
+			switch v.Key {
+			case "C15/success-for-pending-request":
+				out = append(out, ev.V("C01/success-without-completed-login", "overlapping callbacks (schedule %s): %s", short(strings.Join(trace, " "), 200), v.What))
+			case "C15/user-data-for-pending-request":
+				out = append(out, ev.V("C01/user-data-in-failure-reply", "overlapping callbacks (schedule %s): %s", short(strings.Join(trace, " "), 200), v.What))
+			case "C15/panic":
+				out = append(out, ev.V("C01/panic", "%s", v.What))
+			}
+		}
+		col.Case(pending && len(trace) > c.N+2, ev.Fingerprint("sched", c.N, c.Ops, c.SharedIDs, c.SlowAt), []string{"scheduled-callbacks", fmt.Sprintf("scheduled/shared-ids=%v", c.SharedIDs)}, func() any {
+			return map[string]any{"case": c, "trace": strings.Join(trace, " ")}
+		})
+		return out
+	})
+}
+
+// TestC07Sched: conformant requests of a service provider's users are accepted even while other requests of the same
+// provider are slow, fail or are abandoned by their user agents.
+func TestC07Sched(t *testing.T) {
+	col := ev.For("C07", "exploration", c07Rule)
+	old := runtime.GOMAXPROCS(4)
+	defer runtime.GOMAXPROCS(old)
+	searchRapid(t, col, func(t *rapid.T) C15SchedCase {
+		return genSchedFocused(t, []string{"sso", "sso", "logout", "attrquery"}, false, rapid.IntRange(0, 3).Draw(t, "samesp") != 0)
+	}, func(c C15SchedCase) []*ev.Violation {
+		vs, _, trace := c15SchedRun(c)
+		var out []*ev.Violation
+		for _, v := range vs {
+			switch v.Key {
+			case "C15/sso-not-accepted":
+				out = append(out, ev.V("C07/rejected:authn", "while another request of the provider was slow / failing / abandoned (schedule %s): %s", short(strings.Join(trace, " "), 200), v.What))
+			case "C15/logout-reply", "C15/logout-response-mixed-up":
+				out = append(out, ev.V("C07/rejected:logout", "while another request of the provider was slow / failing / abandoned (schedule %s): %s", short(strings.Join(trace, " "), 200), v.What))
+			case "C15/attrquery-reply":
+				out = append(out, ev.V("C07/rejected:attrquery", "while another request of the provider was slow / failing / abandoned (schedule %s): %s", short(strings.Join(trace, " "), 200), v.What))
+			case "C15/panic":
+				out = append(out, ev.V("C07/panic", "%s", v.What))
+			}
+		}
+		col.Case(len(trace) > c.N+2, ev.Fingerprint("sched", c.N, c.Ops, c.SameSP, c.SlowAt, c.CancelOn), []string{"scheduled-requests", fmt.Sprintf("scheduled/same-sp=%v", c.SameSP)}, func() any {
+			return map[string]any{"case": c, "trace": strings.Join(trace, " ")}
+		})
+		return out
+	})
+}
